@@ -259,6 +259,20 @@ func newWorker(id int, sh *Shared, ld *loaded, e *Explorer) *Worker {
 			}()
 		}
 	}
+	for _, path := range forceInit {
+		if p := ld.prog.ImportedPackage(path); p != nil {
+			if f := p.Func("init"); f != nil {
+				func() {
+					defer func() {
+						if r := recover(); r != nil {
+							in.initWarn[fmt.Sprintf("init of %s aborted: %v", path, short(r))]++
+						}
+					}()
+					in.callSSA(nil, 0, f, nil, nil)
+				}()
+			}
+		}
+	}
 	in.initMode = false
 	in.funcsRun = map[*ssa.Function]struct{}{}
 	in.infoCache = map[*ssa.Function]*fnInfo{}
